@@ -13,7 +13,7 @@ from functools import partial
 
 import numpy as np
 
-from .. import games, seams, simpool
+from .. import games, seams, simpool, simthreads
 from .. import prelude
 from ..core import Sim
 
@@ -21,18 +21,20 @@ LEVEL = "exploration"
 RULE = ("Each run is a seeded history of 6..16 generator calls over keys of the live registry (minus 'convex') and "
         "n = 3..6 (thorough ..8); 2..4 twin calls (same key, n, seed) are planted at two points, separated by "
         "entropy jumps of all hidden streams, other calls and - in half of the runs - execution of the second twin "
-        "inside a simulated pool worker (fork or fresh process image). Every draw is monitored (players, v(empty), "
+        "inside a simulated pool worker (fork or fresh process image), or while a second caller thread is inside a "
+        "generator as well (line-granular interleaving). Every draw is monitored (players, v(empty), "
         "float64, superadditive, monotone where assumed). Non-trivial = a twin pair was compared after at least "
         "one disturbance; distinct = distinct event-log digests.")
 STATE_MEASURE = "distinct (generator key, n) pairs drawn and monitored"
 REAL_VS_STUB = {"real": ["incomplete_cooperative.generators", "graph_game", "networkx generators", "numpy.random"],
                 "stub": ["multiprocessing.Pool -> SimPool (process images)"],
                 "seams": ["hidden RNG streams (generators._gen, def-time default Generators, legacy np.random, "
-                          "random) set from the tape", "generators._LAST_OWNER via process images"]}
+                          "random) set from the tape", "generators._LAST_OWNER via process images",
+                          "line-granular thread interleaver (sim/simthreads.py)"]}
 ASSUMPTIONS = ["class membership is monitored on the draws made, with the documented relative tolerance 1e-9; it is "
                "not decided for all seeds", "documented exceptions (graph-weight-distribution family, round-robin "
                "factory) are exempt from the twin comparison only"]
-PROBES = ["returned_game_mutated_by_caller", "twin_across_entropy_jump", "twin_in_worker_fork", "twin_in_worker_fresh", "exception_family_drawn",
+PROBES = ["twin_while_another_thread_generates", "returned_game_mutated_by_caller", "twin_across_entropy_jump", "twin_in_worker_fork", "twin_in_worker_fresh", "exception_family_drawn",
           "cheerleader_drawn", "monotone_family_drawn"]
 TIERS = {
     "quick": {"runs": 40000, "wall": 40, "batch": 24, "shrink_s": 40},
@@ -190,7 +192,27 @@ def run(sim: Sim) -> None:
             t = second_pending.pop(sim.choose(len(second_pending), "which-second"))
             key, n, seed = twins[t]
             in_worker = use_pool and sim.flip(1, 2, "in-worker")
-            d2 = one_call(key, n, seed, in_worker)
+            if not in_worker and n <= 5 and sim.flip(1, 4, "threads"):
+                # the second twin is drawn while another caller thread is inside a generator too (the same key half
+                # of the time), pre-empted between package lines as the tape says
+                key2 = key if sim.flip(1, 2, "same-key") else sim.pick(keys, "thread-key")
+                n2 = n if sim.flip(1, 2, "same-n") else 3 + sim.choose(3, "thread-n")
+                seed2 = sim.choose(2 ** 32, "thread-seed")
+                sim.op("generate-in-two-threads", key, n, key2, n2)
+
+                def other_thread():
+                    try:
+                        draw(key2, n2, seed2)
+                    except Exception:  # not judged here
+                        pass
+                with sim.guard("C10.generator_raised"):
+                    d2 = simthreads.interleave(sim, [lambda: draw(key, n, seed), other_thread])[0]
+                monitor(sim, key, n, seed, d2)
+                sim.probe("twin_while_another_thread_generates")
+                disturbed[t] = disturbed.get(t, 0) + 1
+                sim.mutations += 1
+            else:
+                d2 = one_call(key, n, seed, in_worker)
             if in_worker:
                 sim.probe("twin_in_worker_" + image_model)
                 sim.mutations += 1
